@@ -79,7 +79,7 @@ class Job:
                 # never pruned on unknown: the path is kept (over-approximation); a sat obligation on it carries a
                 # model of the path facts, so it is feasible after all
                 self.res["uncertain_paths"] = self.res.get("uncertain_paths", 0) + 1
-            if validate and len(t.path.ax) > 600:
+            if validate and (len(t.path.ax) > 600 or self.spec.get("skip_tv")):
                 # very large paths (Poseidon): a model of ~2000 non-linear definitions costs minutes; the translator is
                 # validated on every other harness of the run
                 self.res["tv_skipped"] = self.res.get("tv_skipped", 0) + 1
